@@ -195,16 +195,75 @@ def stub_measure(nodes, params):
     return [MeasureBox(7.0 + 3 * (i % 3), 5.0 + (i % 2), 1.0) for i, _ in enumerate(nodes)]
 
 
+def _parser():
+    """The real argument parser of `python -m superrec2.cli` (cli/__main__.py builds exactly this)."""
+    parser = argparse.ArgumentParser()
+    sub = parser.add_subparsers(required=True)
+    CLI.add_args(sub)
+    DRAW.add_args(sub)
+    return parser
+
+
+def _cost_arg(v):
+    return "float('inf')" if v == float("inf") else str(v)
+
+
 def run_cli(desc, algo, policy, costs):
-    """Whole `reconcile` command in-process with plain numbers.  -> (status, stderr text, output lines)"""
-    args = make_args(desc, algo, policy, costs)
-    old = sys.stderr
-    sys.stderr = err = io.StringIO()
+    """The whole `reconcile` command through the real argument parser, with files.  -> (status, stderr, lines, raw output)"""
+    import os, shutil, tempfile
+    tmp = tempfile.mkdtemp(prefix="vcli_")
     try:
-        status = CLI.reconcile(args)
+        inp, outp = os.path.join(tmp, "in.json"), os.path.join(tmp, "out.json")
+        with open(inp, "w") as f:
+            json.dump(input_json(desc), f)
+        argv = ["reconcile", "--input", inp, "--output", outp, algo]
+        if policy != "any" or len(json.dumps(input_json(desc))) % 2:
+            argv += ["--solutions", policy]          # 'any' is also the default: exercised both ways
+        defaults = {"spe": 0, "dup": 1, "hgt": 1, "floss": 1, "sloss": 1}
+        for k, v in costs.items():
+            if v != defaults[k] or k in ("dup", "floss"):
+                argv += [f"--cost-{k}", _cost_arg(v)]
+        old = sys.stderr
+        sys.stderr = err = io.StringIO()
+        try:
+            args = _parser().parse_args(argv)
+            status = args.func(args)
+        finally:
+            sys.stderr = old
+            for fobj in ("input", "output"):
+                try:
+                    getattr(args, fobj).close()
+                except Exception:
+                    pass
+        with open(outp) as f:
+            raw = f.read()
+        return status, err.getvalue(), [l for l in raw.split("\n") if l != ""], raw
     finally:
-        sys.stderr = old
-    return status, err.getvalue(), [l for l in args.output.getvalue().split("\n") if l != ""], args.output.getvalue()
+        shutil.rmtree(tmp, ignore_errors=True)
+
+
+def run_draw(line, orientation):
+    """The `draw` command (tikz output) through the real argument parser, stub measurer bound.  -> (status, tikz text)"""
+    import os, shutil, tempfile
+    tmp = tempfile.mkdtemp(prefix="vcli_")
+    saved = LAYOUT.measure_nodes
+    LAYOUT.measure_nodes = stub_measure
+    try:
+        inp, outp = os.path.join(tmp, "sol.json"), os.path.join(tmp, "out.tex")
+        with open(inp, "w") as f:
+            f.write(line)
+        argv = ["draw", "--input", inp, "--output", outp] + (["--orientation", orientation] if orientation != "horizontal" else [])
+        args = _parser().parse_args(argv)
+        try:
+            status = args.func(args)
+        finally:
+            args.input.close()
+            args.output.close()
+        with open(outp) as f:
+            return status, f.read()
+    finally:
+        LAYOUT.measure_nodes = saved
+        shutil.rmtree(tmp, ignore_errors=True)
 
 
 def file_level_fails(desc, algo, costs):
@@ -257,17 +316,12 @@ def file_level_fails(desc, algo, costs):
                 fails.append(f"{policy}: solution recounts to {v}, the tool printed {printed}")
             keys.add(SR.solution_key(case, back, algo))
             # draw accepts it
-            dargs = argparse.Namespace(input=io.StringIO(line), orientation="horizontal" if len(keys) % 2 else "vertical")
-            saved = LAYOUT.measure_nodes
-            LAYOUT.measure_nodes = stub_measure
             try:
-                tikz = DRAW.generate_tikz(dargs)
-                if "\\begin{tikzpicture}" not in tikz:
-                    fails.append(f"{policy}: draw produced no picture")
+                dst, tikz = run_draw(line, "horizontal" if len(keys) % 2 else "vertical")
+                if dst not in (None, 0) or "\\begin{tikzpicture}" not in tikz:
+                    fails.append(f"{policy}: draw produced no picture (status {dst})")
             except Exception as e:
                 fails.append(f"{policy}: draw rejects a written solution ({type(e).__name__}: {e})")
-            finally:
-                LAYOUT.measure_nodes = saved
             if fails:
                 break
         if policy == "any" and len(lines) != 1:
@@ -499,9 +553,9 @@ def main(argv=None):
     rep.assumptions = ["costs cannot cross argv/JSON symbolically: the JSON round trip, `draw`, the superset relation and the exit status are checked with concrete "
                        "cost vectors (solver witnesses of every explored path + a fixed list)",
                        "get_species_mapping: CrossHair reports 'Not confirmed' after 90 s for two names of len <= 2 (str.lower/split on symbolic strings); enumerated instead",
-                       "argparse itself is bypassed: the functions registered as the sub-command (cli.reconcile.reconcile, cli.draw.generate_tikz) are called with a Namespace"]
+                       "file level goes through the real argparse parser (cli.reconcile.add_args / cli.draw.add_args, eval_cost) with temporary files; the symbolic front end calls read_input / call_algorithm with a Namespace"]
     rep.stubs = RC.STUBS + ["render.layout.measure_nodes -> fixed-size stub for draw"]
-    rep.outside = ["argv parsing and eval of cost expressions", "pdf output", "input files with duplicate or non-alphanumeric names"]
+    rep.outside = ["pdf output", "cost expressions other than integers and float('inf')", "input files with duplicate or non-alphanumeric names"]
     return rep.finish(
         explanation="The naming routine is confirmed by CrossHair on symbolic names. The reconcile front end (read_input + call_algorithm) runs on symbolic unit costs: "
                     "on every feasible path all results carry the specified distinct names and z3 proves every written solution's oracle recount equal to the "
